@@ -122,6 +122,14 @@ pub assume_specification<T, P: FnOnce(&T) -> bool> [core::option::Option::<T>::f
         None => r is None });
 }
 
+// `==` on str is equality of the characters (vstd leaves PartialEqSpec for str unspecified): trusted
+pub mod vx_str_eq { use vstd::prelude::*; use vstd::std_specs::cmp::PartialEqSpec;
+verus!{
+pub broadcast axiom fn ax_obeys() ensures #[trigger] <str as PartialEqSpec<str>>::obeys_eq_spec();
+pub broadcast axiom fn ax_eq(a: &str, b: &str) ensures #[trigger] <str as PartialEqSpec<str>>::eq_spec(a, b) == (a@ == b@);
+pub broadcast group g { ax_obeys, ax_eq }
+}}
+
 // ---- R9 trusted wrappers (same body as the std call they rename; only the contract is new) ----
 verus! {
 pub trait VxAsDeref {
